@@ -1,4 +1,5 @@
 import FpVerif.Properties.C20
+import FpVerif.Properties.C20_Trace
 #print axioms Fp.C20.consume_spec
 #print axioms Fp.C20.control_first_rr
 #print axioms Fp.C20.control_first_random
@@ -15,3 +16,10 @@ import FpVerif.Properties.C20
 #print axioms Fp.C20.conservation_rr
 #print axioms Fp.C20.tree_rooted
 #print axioms Fp.C20.no_cycle
+#print axioms Fp.C20.inv_init
+#print axioms Fp.C20.takeFloating_none
+#print axioms Fp.C20.inv_pop
+#print axioms Fp.C20.step_ok
+#print axioms Fp.C20.trace_accepts_rr_from
+#print axioms Fp.C20.trace_accepts_rr
+#print axioms Fp.C20.trace_tracks_rr
